@@ -361,3 +361,30 @@ _BOUNDED = ' + bounded exhaustive interpretation of the exported CFGs (rules/ord
 for _k in ('C01', 'C02', 'C03', 'C04', 'C05', 'C06', 'C08', 'C10', 'C11', 'C12', 'C13', 'C14', 'C16', 'C18', 'C19', 'C20'):
     if _k in CLAIMS and 'rules/ordint.py' not in CLAIMS[_k]['technique']:
         CLAIMS[_k]['technique'] += _BOUNDED
+
+# what round 7 added to each claim (DESIGN.md section 13.10)
+ROUND7 = {
+    'C01': 'attrid[] is indexed only under a successful valid_upto(gr_slatMax, same operand).',
+    'C02': 'the justification-record bounds also for Slot::getJustify.',
+    'C03': 'every doMirror call is dominated by a non-zero test of the mirroring attribute (defect F22, repaired); CharInfo\'s constructor initialises every member; '
+           'NOMUTPOS reads facts about the pass index only.',
+    'C04': 'the slot map always ends with the slot behind the match (runFSM\'s final push is unconditional), so collectGarbage sees a deleted last slot.',
+    'C05': 'NOMUTPOS is shared: no pass that runs after associateChars may insert or delete.',
+    'C07': 'a handler whose effect depends on the stack distance deviates from the specification.',
+    'C08': 'no mutable static storage in either VM driver; the telemetry rule; CharInfo fully initialised.',
+    'C09': 'NOGLOBAL on the declarations themselves (the VM driver that is parsed but not linked).',
+    'C10': 'no class outside three tabled ones has a mutable member (a loader call must not remember the call before it).',
+    'C13': 'AGREE with BMP groups inside the format 12 table, segments around the surrogate block, probes in both orders; the pseudo-glyph map is stored as read.',
+    'C14': 'the Table life cycle with empty rejected buffers and damaged blocks whose version word still matches.',
+    'C15': 'only the default advance callback asks a font for its face; per result variable the same design-unit members flow in with and without a font; '
+           'justify positions with the font last, also with tracing compiled in.',
+    'C16': 'pointer-derived arguments are sinks only if the callee keeps them; an array of owned blocks is freed only together with its blocks.',
+    'C17': 'per-axis linear forms: resolve converts axis i back with (1,0), (0,1), (1,1), (1,-1); initSlot bounds each diagonal by the rooms derived from the axis; '
+           'mergeSlot builds the target position from members only; a tolerance in the end-point classification is reported.',
+    'C18': 'mask_over_val interpreted for every bit length; the running bit offset is at least 16 bits wide; getName reads its in/out language before writing it.',
+    'C19': 'newJustify interpreted (null-terminated free list); the base chain justify walks is finite and complete (shared with C04).',
+    'C20': 'a constant mask that clears bits of a stored tag byte is a violation.',
+}
+for _k, _v in ROUND7.items():
+    if _k in CLAIMS:
+        CLAIMS[_k]['text'] += '  Round 7: ' + _v
